@@ -8,7 +8,8 @@ analysis (real processes for ncpu > 1) vs. Model/Rng.lean through Driver/C08.lea
 streams are handed to the model as tables of 32-bit words, so rows are compared bit by bit.
 Property oracles (implementation only): support/size/inverse-CDF of the choice in exact fractions,
 fresh seed, two-run reproducibility after unrelated prior use, non-interference of minimiser draws,
-fresh minimiser stream, worker seeds, live-time draws.
+fresh minimiser stream, worker seeds, live-time draws, fresh-vs-used histories on one Livetime/TimeGenerator,
+one RandomChoice, one RandomStateService.
 """
 import ast
 import itertools
@@ -780,6 +781,129 @@ def o_times(ctx, case):
     return None
 
 
+def _mk_time_objs(ivs):
+    from skyllh.core.livetime import Livetime
+    from skyllh.core.times import LivetimeTimeGenerationMethod, TimeGenerator
+    lt = Livetime(np.array(ivs, dtype=np.float64).reshape((-1, 2)))
+    return lt, TimeGenerator(LivetimeTimeGenerationMethod(lt))
+
+
+def o_time_history(ctx, case):
+    """histories of draws on ONE Livetime and ONE TimeGenerator (windowed / plain / different windows /
+    new intervals assigned / interleaved services): every draw equals, bit for bit, the draw of untouched
+    objects with a service in the same stream state"""
+    from skyllh.core.random import RandomStateService
+    ivs = case['ivs']
+    lt, tg = _mk_time_objs(ivs)
+    svcs, used = {}, {}
+    for k, st in enumerate(case['steps']):
+        if 'set_ivs' in st:
+            ivs = st['set_ivs']
+            lt.uptime_mjd_intervals_arr = np.array(ivs, dtype=np.float64).reshape((-1, 2))
+            continue
+        seed, size, win, name = st['seed'], st['size'], st.get('win'), st.get('svc')
+        kw = {} if win is None else {'t_min': win[0], 't_max': win[1]}
+        if name is None:
+            rss, ref_rss = RandomStateService(seed), RandomStateService(seed)
+        else:
+            # a named service lives through the history; the reference service is brought to the same state
+            if name not in svcs:
+                svcs[name], used[name] = RandomStateService(seed), 0
+            rss = svcs[name]
+            ref_rss = RandomStateService(rss.seed)
+            if used[name]:
+                ref_rss.random.random_sample(used[name])
+            used[name] += size
+        flt, ftg = _mk_time_objs(ivs)
+        try:
+            if st.get('via') == 'lt':
+                got = lt.draw_ontimes(rss=rss, size=size, **kw)
+                want = flt.draw_ontimes(rss=ref_rss, size=size, **kw)
+            else:
+                got = tg.generate_times(rss=rss, size=size, **kw)
+                want = ftg.generate_times(rss=ref_rss, size=size, **kw)
+        except Exception as e:  # noqa
+            return 'step %d of the history %r on intervals %r raised %s: %s' % (k, case['steps'], case['ivs'], type(e).__name__, e)
+        got, want = np.asarray(got, dtype=np.float64), np.asarray(want, dtype=np.float64)
+        if got.shape != (size,):
+            return 'step %d: %d times requested, shape %r returned' % (k, size, got.shape)
+        if got.tobytes() != want.tobytes():
+            j = int(np.flatnonzero(got != want)[0]) if got.shape == want.shape and (got != want).any() else 0
+            return ('times depend on earlier use of the Livetime/TimeGenerator object: intervals %r, history %r — step %d (%s, window %r, '
+                    'seed %d, size %d) returns %r at position %d on the used object but %r on untouched objects with the same seed' % (
+                        case['ivs'], case['steps'][:k], k, st.get('via', 'tg'), win, seed, size, float(got[j]), j, float(want[j])))
+        if not _same_state(rss.random.get_state(), ref_rss.random.get_state()):
+            return 'step %d: the service is left in a different state by the used and by the untouched object' % k
+    return None
+
+
+def o_choice_history(ctx, case):
+    """ONE RandomChoice object called repeatedly (different sizes, different services, prescribed and real
+    deviates): every call equals the call on a new RandomChoice object"""
+    from skyllh.core.random import RandomChoice, RandomStateService
+    p = make_ps(case['ps'])
+    items = np.arange(len(p))
+    rc = RandomChoice(items=items, probabilities=p)
+    p0, items0 = np.array(p, copy=True), items.copy()
+    for k, st in enumerate(case['steps']):
+        fresh = RandomChoice(items=np.arange(len(p)), probabilities=make_ps(case['ps']))
+        try:
+            if 'us' in st:
+                got = rc(rss=_StubRSS(st['us']), size=len(st['us']))
+                want = fresh(rss=_StubRSS(st['us']), size=len(st['us']))
+                n = len(st['us'])
+            else:
+                got = rc(rss=RandomStateService(st['seed']), size=st['size'])
+                want = fresh(rss=RandomStateService(st['seed']), size=st['size'])
+                n = st['size']
+        except Exception as e:  # noqa
+            return 'call %d of %r on one RandomChoice(%s) raised %s: %s' % (k, case['steps'], case['ps'], type(e).__name__, e)
+        got, want = np.asarray(got), np.asarray(want)
+        if got.shape != (n,) or not np.array_equal(got, want):
+            return ('RandomChoice(%s) depends on its earlier calls: after %r, call %d (%r) returns %r, a new object returns %r'
+                    % (case['ps'], case['steps'][:k], k, st, got.tolist()[:20], want.tolist()[:20]))
+        if not np.array_equal(np.asarray(rc.probabilities), p0) or not np.array_equal(np.asarray(rc.items), items0):
+            return 'RandomChoice call %d changed the stored items/probabilities' % k
+    return None
+
+
+def _rs_draw(r, kind, n):
+    if kind == 'random':
+        return r.random(n)
+    if kind == 'uniform':
+        return r.uniform(-2.0, 5.0, n)
+    if kind == 'randint':
+        return r.randint(0, 2 ** 32, n)
+    if kind == 'poisson':
+        return r.poisson(3.5, n)
+    if kind == 'normal':
+        return r.normal(0.0, 1.0, n)
+    if kind == 'choice':
+        return r.choice(7, n)
+    raise ValueError(kind)
+
+
+def o_rss_history(ctx, case):
+    """ONE RandomStateService through a history of draws of several kinds and reseeds: after reseed(s) it
+    reports seed s and behaves like RandomStateService(s); between reseeds it follows the stream of its seed"""
+    from skyllh.core.random import RandomStateService
+    rss = RandomStateService(case['seed'])
+    ref = np.random.RandomState(case['seed'])
+    for k, st in enumerate(case['steps']):
+        if 'reseed' in st:
+            rss.reseed(st['reseed'])
+            ref = RandomStateService(st['reseed']).random
+            if rss.seed != st['reseed']:
+                return 'after reseed(%d) the service reports seed %r' % (st['reseed'], rss.seed)
+        else:
+            a = np.asarray(_rs_draw(rss.random, st['kind'], st['n']))
+            b = np.asarray(_rs_draw(ref, st['kind'], st['n']))
+            if a.tobytes() != b.tobytes():
+                return ('RandomStateService(%d) after the history %r: %d %s draws differ from those of a new service with the seed set last'
+                        % (case['seed'], case['steps'][:k], st['n'], st['kind']))
+    return None
+
+
 # ------------------------------------------------------------------------------------------
 # correspondence as a replayable oracle
 
@@ -828,6 +952,7 @@ def _hist_compare(case, model):
 ORACLES = {
     'choice': o_choice, 'choice_stream': o_choice_stream, 'seed': o_seed, 'seed_history': o_seed_history,
     'repro': o_repro, 'nonint': o_nonint, 'fresh_min': o_fresh_min, 'workers': o_workers, 'times': o_times,
+    'time_history': o_time_history, 'choice_history': o_choice_history, 'rss_history': o_rss_history,
     'corr': o_corr,
 }
 
@@ -836,6 +961,8 @@ _SIG = {
     'seed': 'C08/extend_trial_data_file/', 'seed_history': 'C08/extend_trial_data_file/history-',
     'repro': 'C08/do_trials/', 'nonint': 'C08/do_trial/', 'fresh_min': 'C08/do_trial/minimizer-stream-',
     'workers': 'C08/parallelize/worker-seeds-', 'times': 'C08/draw_ontimes/',
+    'time_history': 'C08/draw_ontimes/history-', 'choice_history': 'C08/RandomChoice.__call__/history-',
+    'rss_history': 'C08/RandomStateService/history-',
 }
 
 
@@ -866,6 +993,53 @@ def _report(ctx, name, oc, res, **kw):
 
 
 # ------------------------------------------------------------------------------------------
+
+def _gen_ivs(rng):
+    t, ivs = rng.choice([0.0, 55000.0, -3.0]), []
+    for _ in range(rng.randrange(2, 7)):
+        a = t + rng.choice([0.0, 0.5, 1.0, 2.0])
+        b = a + rng.choice([0.25, 1.0, 1.0, 3.0])
+        ivs.append([a, b])
+        t = b
+    return ivs
+
+
+def _gen_window(rng, ivs):
+    """window with positive on-time inside; borders inside up-time intervals, in gaps or outside"""
+    i = rng.randrange(len(ivs))
+    j = rng.randrange(i, len(ivs))
+    t0 = rng.choice([ivs[i][0], ivs[i][0] + 0.25 * (ivs[i][1] - ivs[i][0]), 0.5 * (ivs[i][0] + ivs[i][1]), ivs[i][0] - 0.125])
+    t1 = rng.choice([ivs[j][1], ivs[j][1] - 0.25 * (ivs[j][1] - ivs[j][0]), ivs[j][1] + 0.125])
+    if i == j and not t0 < t1:
+        t0, t1 = ivs[i][0], ivs[i][1]
+    r = rng.random()
+    return [None, t1] if r < 0.1 else [t0, None] if r < 0.2 else [t0, t1]
+
+
+def _gen_time_steps(rng, ivs, forced):
+    seeds = [0, 1, 2, 7, 42, 12345, 2 ** 32 - 1]
+
+    def draw(win, svc=None):
+        return {'seed': rng.choice(seeds), 'size': rng.choice([1, 2, 5, 40]), 'win': win, 'via': rng.choice(['lt', 'tg', 'tg']),
+                'svc': svc}
+    W = lambda: _gen_window(rng, ivs)   # noqa
+    if forced == 0:
+        return [draw(W()), draw(None)]
+    if forced == 1:
+        return [draw(None), draw(W()), draw(None)]
+    if forced == 2:
+        return [draw(W()), draw(W()), draw(None), draw(W())]
+    steps = []
+    for _ in range(rng.randrange(2, 8)):
+        r = rng.random()
+        if r < 0.12:
+            ivs = _gen_ivs(rng)
+            steps.append({'set_ivs': ivs})
+        else:
+            steps.append(draw(_gen_window(rng, ivs) if rng.random() < 0.5 else None,
+                              svc=rng.choice([None, None, 'a', 'b'])))
+    return steps
+
 
 def _gen_cfg(rng):
     lo, hi = rng.choice([(0.0, 1.0), (0.0, 1.0), (-1.0, 3.0), (2.5, 10.0), (1.0, 4.0), (-180.0, 180.0)])
@@ -996,6 +1170,35 @@ def run(ctx):  # noqa: C901
             t = b
         oracle_cases.append(('times', {'ivs': ivs, 'seed': rng.choice(seeds), 'size': rng.choice([1, 2, 10, 100])}))
 
+    # ---- fresh-vs-used histories on one object
+    for j in range(ctx.n(40, 600)):
+        ivs = _gen_ivs(rng)
+        steps = _gen_time_steps(rng, ivs, forced=j % 6)
+        oracle_cases.append(('time_history', {'ivs': ivs, 'steps': steps}))
+        ctx.count('time_history:len=%d' % len(steps))
+    for j in range(ctx.n(20, 300)):
+        n = rng.choice([1, 2, 3, 5, 10, 100, 1000])
+        spec = {'n': n, 'mode': rng.choice(['dense', 'zeros', 'dyadic', 'tiny']), 'seed': rng.randrange(2 ** 31)}
+        if rng.random() < 0.3:
+            spec['dtype'] = 'float32'
+        steps = []
+        for _ in range(rng.randrange(2, 6)):
+            if rng.random() < 0.5:
+                steps.append({'seed': rng.choice(seeds), 'size': rng.choice([0, 1, 2, 7, 50, 300])})
+            else:
+                steps.append({'us': [rng.choice([0.0, 0.5, float(np.nextafter(1.0, 0.0)), rng.random()]) for _ in range(rng.randrange(1, 9))]})
+        oracle_cases.append(('choice_history', {'ps': spec, 'steps': steps}))
+    for j in range(ctx.n(20, 300)):
+        steps = []
+        for _ in range(rng.randrange(2, 8)):
+            if rng.random() < 0.35:
+                steps.append({'reseed': rng.choice(seeds)})
+            else:
+                steps.append({'kind': rng.choice(['random', 'uniform', 'randint', 'poisson', 'normal', 'choice']), 'n': rng.choice([1, 1, 2, 3, 10])})
+        steps.append({'reseed': rng.choice(seeds)})
+        steps.append({'kind': rng.choice(['random', 'normal', 'randint']), 'n': 5})
+        oracle_cases.append(('rss_history', {'seed': rng.choice(seeds), 'steps': steps}))
+
     # ---- correspondence (one driver process for all requests)
     reqs, impls = [], []
     for c in cases:
@@ -1104,7 +1307,8 @@ MANIFEST = dict(
           'on other services leave a service untouched; RandomChoice as coded (argsort, sorted search, scatter) equals one inverse-CDF '
           'look-up per deviate, returns the requested number of items, never raises and never returns an item of zero probability '
           '(ordered field); the repaired unused-seed search returns the least seed not in the file, also along histories of extensions, '
-          'with a machine-checked counterexample for the pinned search. The executable model is compared exactly with RandomChoice, '
+          'with a machine-checked counterexample for the pinned search; draws of the (cache-free) Livetime/TimeGenerator service after any '
+          'history of windowed/plain draws equal those of an untouched object. The executable model is compared exactly with RandomChoice, '
           'extend_trial_data_file (all subsets of {0..6}) and the real do_trial/do_trials/parallelize/Minimizer on a synthetic analysis.'),
     note=('numpy.random.RandomState is a parameter of the model (a function of seed and position); its determinism and bit-identity are '
           'numpy\'s and enter through word tables in the correspondence and through two-run comparisons. The stream theorems are about the '
